@@ -303,7 +303,15 @@ def _child(task, prop, tier, seed, conn):
             else:
                 tc.results, tc.samples, tc.canaries, tc.notes, tc.dom = [], [], [], [], None
         if not refuted:
-            task.fn(tc)
+            from .values import Unsupported as _Unsup
+            try:
+                task.fn(tc)
+            except _Unsup as e:
+                # a construct the engines do not model, met outside the places that normally record it (inside a stub, a
+                # specification or a postcondition): the task is undecided, the checker has not failed
+                r = tc.add_result("engine", "unsupported", detail="Unsupported: %s" % e)
+                r.clause = "engine"
+                r.replay = getattr(tc, "native", None)
         out = {"results": [dict(r.to_dict(), clause=getattr(r, "clause", None), replay=getattr(r, "replay", None))
                            for r in tc.results],
                "samples": tc.samples, "canaries": tc.canaries, "notes": tc.notes + (tc.dom.notes if tc.dom and hasattr(tc.dom, "notes") else []),
